@@ -488,18 +488,22 @@ Definition issq_structure_ok (n : Z) (squares : list Z) (p : issqp) : bool :=
   forall2i (fun i r => range_structure_ok (ped_range (rt_name i) 0 (bitlen n)) r) 0 (iq_rootrange p) &&
   forall2i (fun i r => mul_structure_ok (issq_valid n i) r) 0 (iq_rootvalid p).
 
-(* issquareproof.go:236 commitmentsFromProof *)
-Definition issq_commitments (g : group) (c : Z) (n : Z) (squares : list Z) (p : issqp) : outcome (list Z) :=
-  let bs := peds_bases sq_name (iq_squares p) ++ peds_bases rt_name (iq_roots p) ++ ped_bases (nm "N") (iq_n p) in
-  let ps := peds_results sq_name (iq_squares p) ++ peds_results rt_name (iq_roots p) ++ ped_results (nm "N") (iq_n p) in
+(* issquareproof.go:236 commitmentsFromProof; first the pedersen part, which does not involve the public values *)
+Definition issq_pre (g : group) (c : Z) (p : issqp) : outcome (list Z) :=
   let! l1 := concat_outcomes (mapi (fun i q => ped_commitments g (sq_name i) c q) 0 (iq_squares p)) in
   let! l2 := concat_outcomes (mapi (fun i q => ped_commitments g (rt_name i) c q) 0 (iq_roots p)) in
   let! l3 := ped_commitments g (nm "N") c (iq_n p) in
+  Ok (l1 ++ l2 ++ l3).
+
+Definition issq_commitments (g : group) (c : Z) (n : Z) (squares : list Z) (p : issqp) : outcome (list Z) :=
+  let bs := peds_bases sq_name (iq_squares p) ++ peds_bases rt_name (iq_roots p) ++ ped_bases (nm "N") (iq_n p) in
+  let ps := peds_results sq_name (iq_squares p) ++ peds_results rt_name (iq_roots p) ++ ped_results (nm "N") (iq_n p) in
+  let! pre := issq_pre g c p in
   let! r4 := rep_from_proof g bs ps c (issq_nrep n) in
   let! l5 := concat_outcomes (mapi (fun i v => let! r := rep_from_proof g bs ps c (issq_sqrep i v) in Ok [r]) 0 squares) in
   let! l6 := concat_outcomes (mapi (fun i q => range_commitments g bs c (ped_range (rt_name i) 0 (bitlen n)) q) 0 (iq_rootrange p)) in
   let! l7 := concat_outcomes (mapi (fun i q => mul_commitments g bs ps c (issq_valid n i) q) 0 (iq_rootvalid p)) in
-  Ok (l1 ++ l2 ++ l3 ++ [n] ++ squares ++ [r4] ++ l5 ++ l6 ++ l7).
+  Ok (pre ++ [n] ++ squares ++ [r4] ++ l5 ++ l6 ++ l7).
 
 (* ---------- quasi-safe prime products (squarefree.go, primepowerproduct.go, disjointprimeproduct.go,
               almostsafeprimeproduct.go, quasisafeprimeproduct.go) ---------- *)
@@ -638,7 +642,8 @@ Definition vk_structure_ok (n : Z) (bases : list Z) (gp_prime half_prime : bool)
   | _, _ => false
   end.
 
-Definition vk_list (n : Z) (bases : list Z) (p : vkp) : outcome (list Z) :=
+(* the part of the hashed list before the bases-are-squares proof *)
+Definition vk_front (n : Z) (p : vkp) : outcome (list Z) :=
   match vk_groupprime p, vk_challenge p with
   | Some gp, Some c =>
     let g := build_group gp in
@@ -655,8 +660,16 @@ Definition vk_list (n : Z) (bases : list Z) (p : vkp) : outcome (list Z) :=
     let! l8 := prime_commitments g bs ps c (mkPs (nm "pprime") (vk_primelen n)) (vk_pprime_prime p) in
     let! l9 := prime_commitments g bs ps c (mkPs (nm "qprime") (vk_primelen n)) (vk_qprime_prime p) in
     let l10 := map (fun o => match o with Some v => v | None => 0 end) (opt_list_l (as_commitments (q_aspp (vk_qspp p)))) in
-    let! l11 := issq_commitments g c n bases (vk_bases p) in
-    Ok (l1 ++ l2 ++ l3 ++ l4 ++ [gp; n] ++ [r5; r6; r7] ++ l8 ++ l9 ++ l10 ++ l11)
+    Ok (l1 ++ l2 ++ l3 ++ l4 ++ [gp; n] ++ [r5; r6; r7] ++ l8 ++ l9 ++ l10)
+  | _, _ => Panic
+  end.
+
+Definition vk_list (n : Z) (bases : list Z) (p : vkp) : outcome (list Z) :=
+  match vk_groupprime p, vk_challenge p with
+  | Some gp, Some c =>
+    let! front := vk_front n p in
+    let! l11 := issq_commitments (build_group gp) c n bases (vk_bases p) in
+    Ok (front ++ l11)
   | _, _ => Panic
   end.
 
